@@ -468,6 +468,93 @@ theorem C14_complete_dotted_partial (pre loc lbl run post : Bytes) (d w1 w2 : Na
 
 example : spans (b!"mail x.y@ex-1.org, bye") = [(5, 17)] := by decide
 
+
+/-! ### domains cut by the end of the text -/
+
+/-- `findEnd` accepts a domain that runs to the end of the text without a dot, unless it is number-like -/
+theorem findEnd_cut_nodot (s : Bytes) (a : Nat) (lbl : Bytes) (hs : s.drop (a + 1) = lbl)
+    (hl : ∀ c ∈ lbl, (isAddr c && c != 46) = true) (hn : numLike lbl = false) : findEnd s a = some s.length := by
+  unfold findEnd
+  simp only [hs]
+  rw [takeWhile_all _ lbl hl, List.drop_length]
+  simp [hn]
+
+/-- `findEnd` accepts a domain cut right after its first dot, unless the label is number-like -/
+theorem findEnd_cut_dot (s : Bytes) (a : Nat) (lbl : Bytes) (hs : s.drop (a + 1) = lbl ++ [46])
+    (hl : ∀ c ∈ lbl, (isAddr c && c != 46) = true) (hn : numLike lbl = false) : findEnd s a = some s.length := by
+  unfold findEnd
+  simp only [hs]
+  have h1 : (lbl ++ [46]).takeWhile (fun c => isAddr c && c != 46) = lbl :=
+    takeWhile_append_stop _ _ _ hl (by intro x hx; simp at hx; subst hx; simp)
+  rw [h1, List.drop_left' rfl]
+  simp [hn]
+
+/-- the common part: an '@' with a proper local part in front and a domain `findEnd` accepts is inside a redacted span -/
+theorem complete_of_findEnd (pre loc dom : Bytes) (w1 w2 : Nat)
+    (hloc : ∀ c ∈ loc, isAddr c = true) (hw1 : loc.getLast? = some w1) (hw1' : isWord w1 = true)
+    (hpre : ∀ c, pre.getLast? = some c → isAddr c = false ∧ c ≠ 47)
+    (hw2 : dom.head? = some w2) (hw2' : isWord w2 = true)
+    (hend : ∀ s a, s.drop (a + 1) = dom → findEnd s a ≠ none) :
+    ∃ p ∈ spans (pre ++ loc ++ 64 :: dom), p.1 ≤ pre.length + loc.length ∧ pre.length + loc.length < p.2 := by
+  generalize hs : pre ++ loc ++ 64 :: dom = s
+  have hlen : (pre ++ loc).length = pre.length + loc.length := by simp
+  have htake : s.take (pre.length + loc.length) = pre ++ loc := by
+    rw [← hs, ← hlen, List.take_left' rfl]
+  have hdrop : s.drop (pre.length + loc.length + 1) = dom := by
+    rw [← hs, ← hlen, ← List.drop_drop, List.drop_left' rfl]; rfl
+  have hat : s[pre.length + loc.length]? = some 64 := by
+    rw [← hs, ← hlen, List.getElem?_append_right (Nat.le_refl _)]
+    rw [Nat.sub_self]; rfl
+  have hle : pre.length + loc.length ≤ s.length := by rw [← hs]; simp
+  have hlocne : loc ≠ [] := by intro h; rw [h] at hw1; simp at hw1
+  have hlpos : 0 < loc.length := List.length_pos_iff.mpr hlocne
+  have hcand : candidate s (pre.length + loc.length) = true := by
+    unfold candidate
+    have h1 : s[pre.length + loc.length - 1]? = some w1 := by
+      rw [← hs, List.getElem?_append_left (by rw [hlen]; omega), List.getElem?_append_right (by omega)]
+      rw [List.getLast?_eq_getElem?] at hw1
+      rw [show pre.length + loc.length - 1 - pre.length = loc.length - 1 by omega]; exact hw1
+    have h2 : s[pre.length + loc.length + 1]? = some w2 := by
+      have : s[pre.length + loc.length + 1]? = (s.drop (pre.length + loc.length + 1))[0]? := by
+        rw [List.getElem?_drop]
+      rw [this, hdrop]
+      cases dom with
+      | nil => simp at hw2
+      | cons x r => simp at hw2 ⊢; exact hw2
+    simp [h1, h2, hw1', hw2']; omega
+  rcases C14_every_at_examined s _ hat hcand with h | ⟨lim, hlim, h | h⟩
+  · exact h
+  · obtain ⟨st, hst, _⟩ := findStart_ne_none s _ lim pre loc htake hle hloc hpre hlim
+    rw [hst] at h; cases h
+  · exact absurd h (hend s _ hdrop)
+
+/-- **C14 (completeness, a domain truncated by the end of the text).** An address whose domain runs to the end of the
+field — `loc@label` with no dot yet, or `loc@label.` cut right after the first dot — has its '@' inside a redacted span,
+unless the part of the domain that is there is number-like. -/
+theorem C14_complete_truncated (pre loc lbl : Bytes) (w1 w2 : Nat) (dot : Bool)
+    (hloc : ∀ c ∈ loc, isAddr c = true) (hw1 : loc.getLast? = some w1) (hw1' : isWord w1 = true)
+    (hpre : ∀ c, pre.getLast? = some c → isAddr c = false ∧ c ≠ 47)
+    (hl : ∀ c ∈ lbl, (isAddr c && c != 46) = true) (hw2 : lbl.head? = some w2) (hw2' : isWord w2 = true)
+    (hn : numLike lbl = false) :
+    ∃ p ∈ spans (pre ++ loc ++ 64 :: (lbl ++ if dot then [46] else [])),
+      p.1 ≤ pre.length + loc.length ∧ pre.length + loc.length < p.2 := by
+  have hne : lbl ≠ [] := by intro h; rw [h] at hw2; simp at hw2
+  cases dot with
+  | false =>
+    simp only [Bool.false_eq_true, if_false, List.append_nil]
+    refine complete_of_findEnd pre loc lbl w1 w2 hloc hw1 hw1' hpre hw2 hw2' ?_
+    intro s a hs; rw [findEnd_cut_nodot s a lbl hs hl hn]; simp
+  | true =>
+    simp only [if_true]
+    refine complete_of_findEnd pre loc (lbl ++ [46]) w1 w2 hloc hw1 hw1' hpre ?_ hw2' ?_
+    · cases lbl with
+      | nil => exact absurd rfl hne
+      | cons x r => simpa using hw2
+    · intro s a hs; rw [findEnd_cut_dot s a lbl hs hl hn]; simp
+
+example : spans (b!"to bob@examp") = [(3, 12)] := by decide
+example : spans (b!"to bob@example.") = [(3, 15)] := by decide
+
 /-! ### deviations from the letter of "domain not purely numeric" (known findings F-22) -/
 
 /-- the letter of the property: digits and dots only -/
